@@ -110,9 +110,29 @@ def disorder_records(pa, rng, count, rep):
         if not c or c.num_units > 9:
             continue
         d, A = make_dissim(pa, rng)
-        kind = rng.choice(["hand", "hand", "best", "soft"])
+        kind = rng.choice(["hand", "hand", "best", "soft", "hand_soft"])
         try:
-            al = hand_alignment(pa, rng, c) if kind == "hand" else (c.get_best_alignment(d) if kind == "best" else c.get_best_soft_alignment(d))
+            if kind == "hand_soft":
+                # a hand-built COVER: a partition plus one or two more unitary alignments that repeat a pair of co-aligned units
+                # next to another third unit (the weighted mean runs over every occurrence of a pair)
+                base = hand_alignment(pa, rng, c)
+                uas = list(base.unitary_alignments)
+                rich = [ua for ua in uas if sum(1 for _, u in ua.n_tuple if u is not None) >= 2]
+                for ua in rng.sample(rich, min(len(rich), rng.randint(1, 2))):
+                    tup = list(ua.n_tuple)
+                    reals = [i for i, (_, u) in enumerate(tup) if u is not None]
+                    keep = set(rng.sample(reals, 2))
+                    new = []
+                    for i, (a, u) in enumerate(tup):
+                        if i in keep:
+                            new.append((a, u))
+                        else:
+                            pool = [x for x in c[a] if x != u]
+                            new.append((a, rng.choice(pool) if pool and rng.random() < 0.7 else None))
+                    uas.append(pa.UnitaryAlignment(new))
+                al = pa.alignment.SoftAlignment(uas, c)
+            else:
+                al = hand_alignment(pa, rng, c) if kind == "hand" else (c.get_best_alignment(d) if kind == "best" else c.get_best_soft_alignment(d))
         except Exception as ex:
             rep.violation("gammacat.raises", {"exception": repr(ex), "continuum": align.continuum_summary(c)})
             continue
